@@ -106,7 +106,7 @@ def run_check(prop: str, tier: str, only: str | None = None, jobs: int = 16, ver
         ctx = mp.get_context("fork")
         jobs_list = []
         for n in names:
-            k = max(1, REGISTRY[n].ground_chunks) if REGISTRY[n].ground is not None else 1
+            k = max(1, REGISTRY[n].ground_chunks) if REGISTRY[n].ground is not None else max(1, REGISTRY[n].vc_chunks)
             jobs_list.extend((n, tier, (i, k)) for i in range(k))
         jobs_list.sort(key=lambda j: 0 if REGISTRY[j[0]].ground is not None else 1)
         with ctx.Pool(min(jobs, max(1, len(jobs_list)))) as pool:
